@@ -10,6 +10,12 @@ centre_norm_eq_full_norm_value (lean/Ptn/Common/EinsumIso.lean) are validated on
 form (every mode): the isometry condition toward the centre in INDEX form on every node, the environment of the centre
 (einsum over the real tensors) against the identity; on integer (+-1 / 0) exact isometries the Lean model itself evaluates
 the environment and the norm network (`C04 einrec`, the function `netValue` the theorems are about) - compared exactly.
+Gauge machine (Ptn.C06.Gauge, theorems tdvp_site_update_canonical / tdvp_gauge_invariant / tdvp_site_update_isometric):
+`split_node_qr` / `split_node_svd` are wrapped from outside during the constructor, every time step and every reset; the
+observed sequence (qr|svd, node, toward-neighbour) is compared exactly with the model (`C06 gauge ...`: constructor, one
+time step, record after k steps); at every observed `time_evolve` call every other tensor of algo.state must be a
+(partial) isometry toward the evolved tensor (1e-9) and a Python replica of the record, driven by the observed splits
+only, must be canonical at the update position (site / link / merged pair) - the statement of the theorem on the real trace.
 """
 from __future__ import annotations
 
@@ -29,7 +35,9 @@ RULE = ("cases: random rooted trees with 2..7 nodes incl. chains rooted at an en
         "physical dimension 1, prefix identifiers, read-only tensors, reset / setter histories); plus the value-level "
         "stream canonenv: random trees 2..7 nodes, every centre, canonical_form in the modes REDUCED / FULL / KEEP on "
         "generic and on redundant (rank-deficient) bonds, and exactly canonical integer states (signed permutation-like "
-        "isometries, bond dimension up to 3) evaluated by the Lean model. "
+        "isometries, bond dimension up to 3) evaluated by the Lean model; plus the stream gauge: all three TDVP classes "
+        "(first / second order one-site, two-site with truncation disabled and with the default truncation) on random "
+        "trees 2..7 nodes, states without centre and states canonical at a random node, 2 steps, some with a reset. "
         "non-trivial = distinct (shape, variant, seed) with >= 3 nodes or a saturated two-node case")
 PARTIAL = ["conservation/reversibility are proved for abstract local flows (palindromic_reversible, runFlow_neg_reverse, "
            "runFlow_merge, runFlow_conserves, runFlow_monotone) and for one local update with an isometric or "
@@ -44,8 +52,13 @@ PARTIAL = ["conservation/reversibility are proved for abstract local flows (pali
            "comp stream of C02; here the oracle checks relations and shapes on algo.state",
            "value level: Ptn.C06.one_site_update_conserves_norm_of_canonical discharges the isometry hypothesis from "
            "canonical form (index-form isometry condition on every non-centre node, Ptn.Ein.Kids.Canon); that the "
-           "state the library holds at an update IS in that form is validated per run (stream canonenv and after the "
-           "last step of every TDVP case), not proved; zero-padded bonds (KEEP mode: partial isometries) are outside "
+           "state the library holds at an update is canonical at the update site is PROVED at the level of the gauge "
+           "record (Ptn.C06.tdvp_site_update_canonical, tdvp_gauge_invariant) and, with the QR / SVD contract 'the "
+           "factor left at the split node is an isometry toward the neighbour' as an explicit hypothesis, for abstract "
+           "tensors (tdvp_site_update_isometric); the machine is tied to the code by the observed split sequence and "
+           "the isometry of every other tensor at every time_evolve call; NOT proved: that 'isometry toward m' of the "
+           "record means the index-form condition of Kids.Canon for the re-rooted tree (the translation RTree -> Kids); "
+           "zero-padded bonds (KEEP mode: partial isometries) are outside "
            "the hypothesis (covered by local_update_conserves_norm_padded with the projector as a hypothesis)",
            "floating-point accuracy of expm/QR is by contract"]
 ASSUMPTIONS = ["dense reference: eigh-based propagator for the two-node exactness clause"]
@@ -120,6 +133,20 @@ def gen_cases(ctx):
         centre = deg.index(max(deg)) if k % 2 == 0 else vrng.randrange(n)    # half of the cases: a centre of maximal degree
         cases.append({"kind": "canonenv", "variant": "canonenv", "par": par, "seed": vrng.randrange(10 ** 9),
                       "centre": centre, "exact": True})
+    # gauge machine: all three classes, states without centre and states canonical somewhere, resets
+    grng = ctx.subrng("gauge")
+    for k in range(ctx.n(12, 100)):
+        for v in ("tdvp1", "tdvp2", "tdvp2site"):
+            kind = grng.choice([None, None, "spider", "chain", "twig", "bush"])
+            n = grng.choice([6, 7]) if kind == "twig" else grng.choice([2, 3, 4, 5, 5, 6, 7] if kind is None else [3, 4, 5, 6])
+            c = {"kind": "gauge", "variant": v, "par": gen.random_parent_array(grng, n, kind),
+                 "seed": grng.randrange(10 ** 9), "steps": 2, "fullrank": grng.random() < 0.5,
+                 "pregauge": grng.choice([None, None, "KEEP", "REDUCED"])}
+            if grng.random() < 0.25:
+                c["reset_after"] = 1
+            if v == "tdvp2site" and grng.random() < 0.3:
+                c["svd"] = "default"
+            cases.append(c)
     # input-space audit (notes/C06.md): the families of C05 with the C06 oracle (all Hamiltonians Hermitian) ...
     arng = ctx.subrng("audit6")
     for c in c05.audit_cases(ctx, ("tdvp1", "tdvp2")):
@@ -167,7 +194,7 @@ def _normalise(par):
 
 
 def run(ctx):
-    rec = c05.Recorder()
+    rec = GaugeRecorder()
     rec.install()
     try:
         pend = []
@@ -177,26 +204,34 @@ def run(ctx):
             o = _run_one(ctx, c, rec)
             if o:
                 pend.append((c, o))
-        outs = ctx.lean.batch([o["line"] for _, o in pend])
-        for (c, o), mo in zip(pend, outs):
-            _compare(ctx, c, o, mo)
+        keys = [(i, k) for i, (_, o) in enumerate(pend) for k in ("line", "gline") if k in o]
+        outs = ctx.lean.batch([pend[i][1][k] for i, k in keys])
+        for (i, k), mo in zip(keys, outs):
+            _compare(ctx, pend[i][0], pend[i][1], mo, k)
     finally:
         rec.uninstall()
 
 
 def run_case(ctx, case):
-    rec = c05.Recorder()
+    rec = GaugeRecorder()
     rec.install()
     try:
         o = _run_one(ctx, case, rec)
         if o:
-            _compare(ctx, case, o, ctx.lean.batch([o["line"]])[0])
+            for k in ("line", "gline"):
+                if k in o:
+                    _compare(ctx, case, o, ctx.lean.batch([o[k]])[0], k)
     finally:
         rec.uninstall()
 
 
-def _compare(ctx, case, o, mo):
+def _compare(ctx, case, o, mo, key="line"):
     ctx.corr_cases += 1
+    if key == "gline":
+        if _gauge_canon(mo) != o["gimpl"]:
+            ctx.corr_fail(case, f"{case['variant']}: gauge machine: observed splits / record [{o['gimpl'][:300]}] != model "
+                                f"[{_gauge_canon(mo)[:300]}]")
+        return
     if mo != o["impl"]:
         ctx.corr_fail(case, f"{case['variant']}: sweep end / centre: impl={o['impl']} model={mo}")
 
@@ -603,7 +638,281 @@ def _canonenv(ctx, case):
     ctx.tally("canonenv_exact", f"bonds at centre {len(ups)}")
 
 
+
+# ------------------------------------------------------------------------------------------------------------------
+# gauge machine (Ptn.C06.Gauge): observed factorisations, isometries at every local update, replica of the record
+
+GAUGE_VARIANT = {"tdvp1": "first", "tdvp2": "second", "tdvp2site": "twosite"}
+
+
+class GaugeRecorder(c05.Recorder):
+    """c05.Recorder plus OPTIONAL observation points: `split_node_qr` / `split_node_svd` / `contract_nodes` wrapped from
+    outside if they exist (log of (kind, node, toward)); a replica of the C03 record driven by that log alone (a split of
+    `a` toward `b`: `rec[a] = b`; a contraction into `b`: `rec[b] = None`; a contraction of two nodes into a new one: both
+    void); at every observed `time_evolve` call the numerical isometry of every other tensor toward the evolved one
+    (oracle; independent of the observation points) and the canonical form of the replica at the update position
+    (correspondence).  The wrappers only observe: an exception of the harness's own bookkeeping never reaches the library
+    call - it switches the gauge comparison off for the run (`broken`)."""
+
+    POINTS = ("split_node_qr", "split_node_svd", "contract_nodes")
+
+    def __init__(self):
+        super().__init__()
+        self.splits = []
+        self.rec = None           # node -> neighbour | None; None as a whole: not tracked
+        self.ref = None           # a network with the ORIGINAL structure (first hops are taken there)
+        self.gtol = 1e-9
+        self.gprobs = []          # numerical: oracle
+        self.rprobs = []          # record replayed from the observed splits: correspondence
+        self.n_iso = 0
+        self.n_updates = 0
+        self.missing = []
+        self.broken = None
+        self._wrapped = []
+
+    def _guard(self, fn, *a):
+        try:
+            fn(*a)
+        except Exception as e:      # noqa: BLE001 - the harness's own bookkeeping must never disturb the library call
+            self.broken = f"{type(e).__name__}: {str(e)[:80]}"
+
+    def install(self):
+        super().install()
+        from pytreenet.core.ttn import TreeTensorNetwork
+        me = self
+
+        def arg(a, k, pos, name):
+            return k[name] if name in k else a[pos]
+
+        def make(name, orig):
+            if name == "split_node_qr":
+                def note(a, k):
+                    r_legs = arg(a, k, 2, "r_legs")
+                    tgt = r_legs.parent_leg if r_legs.parent_leg is not None else \
+                        (r_legs.child_legs[0] if r_legs.child_legs else None)
+                    me._split("qr", arg(a, k, 0, "node_id"), tgt)
+            elif name == "split_node_svd":
+                def note(a, k):
+                    me._split("svd", arg(a, k, 3, "u_identifier"), arg(a, k, 4, "v_identifier"))
+            else:
+                def note(a, k):
+                    me._contract(arg(a, k, 0, "node_id1"), arg(a, k, 1, "node_id2"), arg(a, k, 2, "new_identifier"))
+
+            def wrapped(self_ttn, *a, **k):
+                me._guard(note, a, k)
+                return orig(self_ttn, *a, **k)
+            return wrapped
+        try:
+            for name in self.POINTS:
+                if not hasattr(TreeTensorNetwork, name):
+                    self.missing.append(name)
+                    continue
+                orig = getattr(TreeTensorNetwork, name)
+                setattr(TreeTensorNetwork, name, make(name, orig))
+                self._wrapped.append((name, orig))
+        except Exception:           # noqa: BLE001
+            self.uninstall()
+            raise
+
+    def uninstall(self):
+        try:
+            from pytreenet.core.ttn import TreeTensorNetwork
+            for name, orig in reversed(self._wrapped):
+                setattr(TreeTensorNetwork, name, orig)
+            self._wrapped = []
+        finally:
+            super().uninstall()
+
+    def usable(self):
+        return not self.missing and self.broken is None
+
+    def _split(self, kind, a, b):
+        self.splits.append((kind, a, b))
+        if self.rec is not None:
+            if a not in self.rec or b not in self.rec:
+                self.rprobs.append(f"{kind} split of {a} toward {b}: not two nodes of the tree")
+                return
+            self.rec[a] = b
+            if kind == "svd":
+                self.rec[b] = None          # the factor S V stays at `b`
+
+    def _contract(self, id1, id2, new_id):
+        if self.rec is None:
+            return
+        if new_id in self.rec:
+            self.rec[new_id] = None         # an R factor (or a link tensor) was absorbed into `new_id`
+        else:
+            for x in (id1, id2):
+                if x in self.rec:
+                    self.rec[x] = None      # two nodes merged into a temporary one
+
+    def start(self, ref, centre):
+        """New replica: a state without centre has no record; a state canonical at `centre` points there."""
+        self.ref = ref
+        self.splits = []
+        if centre is None:
+            self.rec = {x: None for x in ref.nodes}
+        else:
+            self.rec = {x: (None if x == centre else dense.path_between(ref, x, centre)[1]) for x in ref.nodes}
+
+    def _hop(self, x, s):
+        return dense.path_between(self.ref, x, s)[1]
+
+    def observe(self, psi, heff, td, forward, mode):
+        n0 = len(self.events)
+        super().observe(psi, heff, td, forward, mode)
+        if self.algo is None or len(self.events) == n0 or len(self.gprobs) + len(self.rprobs) > 4:
+            return
+        self._guard(self._observe_gauge, psi)
+
+    def _observe_gauge(self, psi):
+        kind, pos, _ = self.events[-1]
+        state = self.algo.state
+        target = None
+        for nid in list(state.nodes.keys()):
+            t = state.tensors[nid]
+            if t.shape == psi.shape and np.shares_memory(t, psi):
+                target = nid
+                break
+        if target is None:
+            return
+        self.n_updates += 1
+        where = f"{kind}{pos}"
+        # (1) numerically: every other tensor of the state is a (partial) isometry toward the evolved tensor
+        if not any(0 in np.asarray(state.tensors[nid]).shape for nid in state.nodes):
+            for nid in state.nodes:
+                if nid == target:
+                    continue
+                path = dense.path_between(state, nid, target)
+                m = dense.matricize_toward(state, nid, path[1])
+                g = m.conj().T @ m
+                # absolute test (rtol = 0; `dense.is_partial_isometry` uses numpy's default rtol of 1e-5): G = M^H M is an
+                # orthogonal projector, i.e. M is an isometry, or a partial one where a shape-keeping split padded zeros
+                if np.abs(g @ g - g).max() <= self.gtol and np.abs(g - g.conj().T).max() <= self.gtol:
+                    self.n_iso += 1
+                else:
+                    self.gprobs.append(f"{where}: tensor of {nid} is not a (partial) isometry toward {path[1]} "
+                                       f"(|G G - G| = {np.abs(g @ g - g).max():.2e})")
+        # (2) the record replayed from the observed splits is canonical at the update position
+        if self.rec is None or self.missing:
+            return
+        bad = []
+        for x in self.rec:
+            if kind == "S":
+                want = [None] if x == pos[0] else [self._hop(x, pos[0])]
+            elif kind == "L":
+                want = [self._hop(x, s) for s in pos if s != x]
+            else:
+                want = [None] if x in pos else [self._hop(x, pos[0]), self._hop(x, pos[1])]
+            if any(self.rec[x] != w for w in want):
+                bad.append(f"{x}>{self.rec[x]} (first hop {want})")
+        if bad:
+            self.rprobs.append(f"{where}: record replayed from the observed splits is not canonical there: " + ", ".join(bad[:3]))
+
+
+def _tree_tokens(ttn, inv):
+    toks = ["-" if ttn.root_id is None else str(inv[ttn.root_id])]
+    for k, nd in ttn.nodes.items():
+        toks.append(f"{inv[k]}:{'-' if nd.parent is None else inv[nd.parent]}:{','.join(str(inv[c]) for c in nd.children)}")
+    return " ".join(toks)
+
+
+def _fmt_splits(splits, inv):
+    return " ".join(f"{k} {inv.get(a, a)}>{inv.get(b, b)}" for k, a, b in splits)
+
+
+def _gauge_begin(rec, ttns, inv):
+    """Call right before the constructor: structure and centre of the caller's state, new replica."""
+    c0 = ttns.orthogonality_center_id
+    rec.gprobs, rec.rprobs, rec.broken = [], [], None
+    rec.start(ttns, c0)
+    return {"tree": _tree_tokens(ttns, inv), "init": "canon" if c0 is None else f"move:{inv[c0]}", "steps": [], "resets": []}
+
+
+def _gauge_finish(ctx, case, g, rec, variant, inv, steps):
+    """Model line and the implementation's answer in the model's format.  Returns None after an oracle failure, {} when
+    the observation points are not available (nothing to compare)."""
+    if rec.gprobs:
+        ctx.oracle_fail(case, f"{variant}: gauge: " + "; ".join(rec.gprobs[:3]))
+        return None
+    ctx.hyp_validated += rec.n_iso
+    rec.n_iso = 0
+    if not rec.usable():
+        ctx.tally("gauge_observation", "skipped: observation point missing" if rec.missing else
+                  "skipped: the observer failed (" + str(rec.broken) + ")")
+        return {}
+    ctx.tally("gauge_observation", "observed")
+    probs = list(rec.rprobs)
+    for k, st in enumerate(g["steps"][1:]):
+        if st != g["steps"][0]:
+            probs.append(f"splits of step {k + 1} differ from those of step 0: {st[:80]} / {g['steps'][0][:80]}")
+    for r in g["resets"]:
+        if r != g["ctor"]:
+            probs.append(f"splits of reset_to_initial_state [{r[:80]}] differ from those of the constructor [{g['ctor'][:80]}]")
+    if probs:
+        ctx.corr_fail(case, f"{variant}: gauge: " + "; ".join(probs[:3]))
+        return {}
+    recs = sorted(f"{inv[x]}>{'-' if y is None else inv[y]}" for x, y in rec.rec.items())
+    line = f"C06 gauge {GAUGE_VARIANT[variant]} {steps} {g['init']} tree {g['tree']}"
+    impl = ("ok init " + g["ctor"]).rstrip() + " | " + ("step " + (g["steps"][0] if g["steps"] else "")).rstrip() + \
+        " | rec " + " ".join(recs) + " | good"
+    return {"gline": line, "gimpl": impl}
+
+
+def _gauge_canon(out):
+    """The model's answer with the record sorted (the model lists it in its own node order)."""
+    parts = out.split(" | ")
+    if len(parts) != 4 or not parts[2].startswith("rec"):
+        return out
+    parts[2] = "rec " + " ".join(sorted(parts[2].split()[1:]))
+    return " | ".join(parts)
+
+
+def _gauge_case(ctx, case, rec):
+    """Stream `gauge`: all three TDVP classes; only the gauge checks (splits, isometries, record) and completion."""
+    rng, nprng, ttns, info, H, Hm, Hneg = _problem(case)
+    variant = case["variant"]
+    names = info["names"]
+    inv = {v: k for k, v in names.items()}
+    n = len(case["par"])
+    ctx.tally("variant", "gauge-" + variant)
+    ctx.tally("nodes", n)
+    ctx.tally("gauge_init", "canonical_form" if ttns.orthogonality_center_id is None else "move_orthogonalization_center")
+    g = _gauge_begin(rec, ttns, inv)
+    rec.gtol = 1e-9
+    rec.tol = 1e-8
+    try:
+        algo = c05.make_algo(case, variant, ttns, H, 0.02, 0.02)
+    except Exception as e:              # noqa: BLE001
+        ctx.oracle_fail(case, f"{variant}: construction raised {type(e).__name__}: {str(e)[:200]}")
+        return None
+    g["ctor"] = _fmt_splits(rec.splits, inv)
+    rec.algo, rec.Hm, rec.order = algo, Hm, sorted(ttns.nodes)
+    for step in range(case["steps"]):
+        rec.events, rec.problems, rec.contracts = [], [], []
+        try:
+            if case.get("reset_after") == step:
+                rec.algo = None
+                rec.start(ttns, ttns.orthogonality_center_id)
+                algo.reset_to_initial_state()
+                g["resets"].append(_fmt_splits(rec.splits, inv))
+                rec.algo = algo
+            rec.splits = []
+            algo.run_one_time_step()
+            g["steps"].append(_fmt_splits(rec.splits, inv))
+        except Exception as e:          # noqa: BLE001
+            rec.algo = None
+            ctx.oracle_fail(case, f"{variant}: step {step} did not complete: {type(e).__name__}: {str(e)[:200]}")
+            return None
+        ctx.count(("gauge", variant, tuple(case["par"]), case["seed"], step), nontrivial=n >= 3, corr=True)
+    rec.algo = None
+    ctx.tally("gauge_updates_checked", min(rec.n_updates, 40) // 10 * 10)
+    rec.n_updates = 0
+    return _gauge_finish(ctx, case, g, rec, variant, inv, case["steps"])
+
 def _run_one(ctx, case, rec):
+    if case["kind"] == "gauge":
+        return _gauge_case(ctx, case, rec)
     if case["kind"] == "saturated":
         _saturated(ctx, case)
         return None
@@ -630,6 +939,7 @@ def _run_one(ctx, case, rec):
     tf = info.get("tolf", 1.0)              # element-type factor of all tolerances (single precision: 5e3)
     tol = TOL * tf
     struct0, shapes0 = dense.structure(ttns), None
+    g = _gauge_begin(rec, ttns, inv)
     try:
         algo = c05.make_algo(case, variant, ttns, H, dt, dt)
     except Exception as e:              # noqa: BLE001
@@ -639,6 +949,8 @@ def _run_one(ctx, case, rec):
         ctx.tally("pending_finding_skipped", case.get("cfg"))
         return None
     rec.tol = 1e-8 * tf
+    rec.gtol = 1e-9 * tf
+    g["ctor"] = _fmt_splits(rec.splits, inv)
     shapes0 = _shape_map(algo.state)      # shapes after the initial KEEP-mode orthogonalisation = input shapes
     shapes_in = _shape_map(ttns)
     probs = []
@@ -656,7 +968,9 @@ def _run_one(ctx, case, rec):
         try:
             if case.get("reset_after") == step:
                 rec.algo = None
+                rec.start(ttns, ttns.orthogonality_center_id)
                 algo.reset_to_initial_state()
+                g["resets"].append(_fmt_splits(rec.splits, inv))
                 rec.algo = algo
                 v_prev = dense.ttns_vector(algo.state, order)
                 e_prev = algos.expval_dense(v_prev, Hm)
@@ -664,7 +978,9 @@ def _run_one(ctx, case, rec):
                 algo.set_num_time_steps_constant_final_time(case["retime_n"])
             if case.get("setn_after") == step:
                 algo.set_num_time_steps(case["setn"])
+            rec.splits = []
             algo.run_one_time_step()
+            g["steps"].append(_fmt_splits(rec.splits, inv))
         except Exception as e:          # noqa: BLE001
             rec.algo = None
             ctx.oracle_fail(case, f"{variant}: step {step} did not complete: {type(e).__name__}: {str(e)[:200]}")
@@ -725,6 +1041,10 @@ def _run_one(ctx, case, rec):
     if probs:
         ctx.oracle_fail(case, f"{variant}: " + "; ".join(probs[:4]))
         return None
+    gout = _gauge_finish(ctx, case, g, rec, variant, inv, case["steps"])
+    rec.n_updates = 0
+    if gout is None:
+        return None
     vname = "first" if variant == "tdvp1" else "second"
     line = f"C06 sweepend {vname} {inv[up[0]]} {inv[up[-1]]} " + " ".join(f"{inv[a]}:{inv[b]}" for a, b in segs)
     # implementation side: the node of the last local update (first order) / the recorded centre (second order)
@@ -732,7 +1052,7 @@ def _run_one(ctx, case, rec):
         impl = str(inv[last_targets[-1]]) if last_targets else "none"
     else:
         impl = str(inv[algo.state.orthogonality_center_id])
-    return {"line": line, "impl": impl}
+    return dict(gout, line=line, impl=impl)
 
 
 def _saturated(ctx, case):
